@@ -140,6 +140,8 @@ func (b *batch) abs(c *pcase) string { return filepath.Join(b.src(), c.Rel) }
 // run executes the whole pipeline for the batch and returns one result per case.
 func (b *batch) run(regTmpl, mainGo string) (res []*result, incon string) {
 	e := b.e
+	// sources, generated Go and the binary are needed only while the batch runs
+	defer os.RemoveAll(b.dir)
 	byPath := map[string]*result{}
 	for _, c := range b.cases {
 		r := &result{C: c, Status: stNotRun}
